@@ -72,7 +72,7 @@ Proof.
   - step_cases H. apply (InvL_mono b); auto.
 Qed.
 
-Lemma InvL_step2 : forall s l s', Inv11 s -> InvL (base s) -> step2 s l = Some s' -> InvL (base s').
+Lemma InvL_step2i : forall s l s', Inv11 s -> InvL (base s) -> step2i s l = Some s' -> InvL (base s').
 Proof.
   intros s l s' [IA IC IN IR] IL H. apply step2_inv in H. destruct H.
   - eapply InvL_step1; eauto. apply lifted_old_ok; auto.
@@ -96,7 +96,7 @@ Qed.
 (* the reconnect pc is only ever entered on a closed connection *)
 Definition InvK (b : state) : Prop := rx b = RReconnect -> closed b = true.
 
-Lemma InvK_step2 : forall s l s', InvN (base s) -> InvK (base s) -> step2 s l = Some s' -> InvK (base s').
+Lemma InvK_step2i : forall s l s', InvN (base s) -> InvK (base s) -> step2i s l = Some s' -> InvK (base s').
 Proof.
   intros s l s' IN IK H. unfold InvK in *. apply step2_inv in H. destruct H; cbn [base wb upd_base].
   - destruct l as [t h|[t|] clk|f|].
@@ -119,15 +119,55 @@ Proof.
   - simpl. discriminate.
 Qed.
 
-Record Inv16 (s : state2) : Prop := { i16_11 : Inv11 s; i16_l : InvL (base s); i16_k : InvK (base s) }.
+Lemma InvL_step2 : forall s l s', Inv11 s -> InvL (base s) -> step2 s l = Some s' -> InvL (base s').
+Proof.
+  intros s l s' I L H. apply step2_flush in H. destruct H as (s1 & H & E). subst. rewrite base_flush.
+  eapply InvL_step2i; eauto.
+Qed.
+
+Lemma InvK_step2 : forall s l s', InvN (base s) -> InvK (base s) -> step2 s l = Some s' -> InvK (base s').
+Proof.
+  intros s l s' N K H. apply step2_flush in H. destruct H as (s1 & H & E). subst. rewrite base_flush.
+  eapply InvK_step2i; eauto.
+Qed.
+
+(* between two frames no error is pending: it was handed to warnError when the loop came back to its read *)
+Definition InvP (s : state2) : Prop := rx (base s) = RRead -> perr s = false.
+
+Lemma perr_warn2 : forall x, perr (warn2 x) = perr x.
+Proof. intros x. unfold warn2. destruct (wch x) as [|cap n]; [|destruct (Nat.ltb n cap)]; auto. Qed.
+
+Lemma InvP_flush : forall s, InvP (flush s).
+Proof.
+  intros s R. rewrite base_flush in R. unfold flush. destruct (perr s) eqn:P; auto.
+  rewrite R. rewrite perr_warn2. reflexivity.
+Qed.
+
+Lemma flush_id : forall s, perr s = false -> flush s = s.
+Proof. intros s P. unfold flush. rewrite P. reflexivity. Qed.
+
+Lemma step2_of_i : forall s l s1, step2i s l = Some s1 -> step2 s l = Some (flush s1).
+Proof. intros s l s1 H. unfold step2. rewrite H. reflexivity. Qed.
+
+Lemma step2_clean : forall s l s1, step2i s l = Some s1 -> perr s1 = false -> step2 s l = Some s1.
+Proof. intros s l s1 H P. rewrite (step2_of_i _ _ _ H), flush_id; auto. Qed.
+
+Lemma keyed_flush : forall s, keyed (flush s) = keyed s.
+Proof.
+  intros s. unfold flush. destruct (perr s); auto. destruct (rx (base s)); auto.
+  unfold warn2. cbn [wch set_perr]. destruct (wch s) as [|cap n]; [|destruct (Nat.ltb n cap)]; auto.
+Qed.
+
+Record Inv16 (s : state2) : Prop := { i16_11 : Inv11 s; i16_l : InvL (base s); i16_k : InvK (base s); i16_p : InvP s }.
 
 Lemma Inv16_init : forall c, Inv16 (init2 c).
-Proof. intros c. constructor; [apply Inv11_init|apply InvL_init|unfold InvK; simpl; discriminate]. Qed.
+Proof. intros c. constructor; [apply Inv11_init|apply InvL_init|unfold InvK; simpl; discriminate|intros _; reflexivity]. Qed.
 
 Lemma Inv16_step : forall s l s', Inv16 s -> step2 s l = Some s' -> Inv16 s'.
 Proof.
-  intros s l s' [I L KK] H. constructor; [eapply Inv11_step; eauto|eapply InvL_step2; eauto|].
-  eapply InvK_step2; eauto. apply I.
+  intros s l s' [I L KK PP] H. constructor; [eapply Inv11_step; eauto|eapply InvL_step2; eauto| |].
+  - eapply InvK_step2; eauto. apply I.
+  - apply step2_flush in H. destruct H as (s1 & _ & E). subst. apply InvP_flush.
 Qed.
 
 Lemma Inv16_run : forall c ls s, run2 (init2 c) ls = Some s -> Inv16 s.
@@ -147,7 +187,7 @@ Lemma send_enabled : forall s i t k clk, keyed s = true -> at_send (base s) i t 
   c_k (getc t (base s)) = k -> (exists j, c_pc (getc t (base s)) = CRecv j) ->
   exists s', step2 s (L1 (LStep ARx clk)) = Some s'.
 Proof.
-  intros s i t k clk K A CK (j & P). simpl. rewrite K. simpl. unfold step_rx2.
+  intros s i t k clk K A CK (j & P). unfold step2. simpl. rewrite K. simpl. unfold step_rx2.
   destruct A as [(v & ks & R)|(ks & R & L)]; rewrite R.
   - unfold lift, step, step_rx. rewrite R. unfold deliver. rewrite P, CK, Nat.eqb_refl.
     destruct (ret_of v); simpl; eauto.
@@ -179,15 +219,16 @@ Proof.
   - intros i t k I. destruct (c_owner _ (i11_c _ I11) _ _ _ I) as (CK & P & _). auto.
   - intros i t k clk A. destruct (owner_of_send _ _ _ _ I11 A) as (CK & [P|P]); split; auto.
     + right. split; auto.
-      set (s1 := wb (set_pc t (CRecv i) (set_lock None (base s))) s).
+      set (s1 := flush (wb (set_pc t (CRecv i) (set_lock None (base s))) s)).
       assert (S1 : step2 s (L1 (LStep (ACaller t) clk)) = Some s1).
-      { simpl. rewrite K. simpl. unfold lift, step, step_caller. rewrite P. reflexivity. }
+      { apply step2_of_i. simpl. rewrite K. simpl. unfold lift, step, step_caller. rewrite P. reflexivity. }
       assert (P1 : c_pc (getc t (base s1)) = CRecv i).
-      { unfold s1. cbn [base wb]. rewrite getc_set_pc, Nat.eqb_refl. reflexivity. }
+      { unfold s1. rewrite base_flush. cbn [base wb]. rewrite getc_set_pc, Nat.eqb_refl. reflexivity. }
       assert (K1 : c_k (getc t (base s1)) = k).
-      { unfold s1. cbn [base wb]. rewrite getc_set_pc, Nat.eqb_refl. simpl. exact CK. }
+      { unfold s1. rewrite base_flush. cbn [base wb]. rewrite getc_set_pc, Nat.eqb_refl. simpl. exact CK. }
       assert (A1 : at_send (base s1) i t k).
-      { unfold s1, at_send. cbn [base wb]. simpl. exact A. }
+      { unfold s1. rewrite base_flush. unfold at_send. cbn [base wb]. simpl. exact A. }
+      assert (KK : keyed s1 = true) by (unfold s1; rewrite keyed_flush; exact K).
       exists s1. split; auto. split; auto. split; auto.
       eapply send_enabled; eauto.
     + left. split; auto. eapply send_enabled; eauto.
@@ -301,9 +342,9 @@ Proof.
   intros [[sid seq] b] ks s. unfold dispatch2, fsz. cbn [snd].
   pose proof (bsz_pos b) as BP. rewrite (bsz_strip b) in *.
   pose proof (rxpot_settle (KTail sid seq :: ks)) as ST. cbn [kpot] in ST.
-  assert (FAIL : (rxpot (rx (base (fail2 (upd_base (log (ERecv sid seq)) s)))) < 7 * bsz (strip b) + kpot ks)%nat /\
-                 is_reconnect (rx (base (fail2 (upd_base (log (ERecv sid seq)) s)))) = false).
-  { rewrite base_fail2. simpl. split; auto. lia. }
+  assert (FAIL : (rxpot (rx (base (fail2 (KTail sid seq :: ks) (upd_base (log (ERecv sid seq)) s)))) < 7 * bsz (strip b) + kpot ks)%nat /\
+                 is_reconnect (rx (base (fail2 (KTail sid seq :: ks) (upd_base (log (ERecv sid seq)) s)))) = false).
+  { rewrite base_fail2. cbn [rx set_rx]. split; [lia|apply settle_not_reconnect]. }
   destruct (negb (decodes (hinted_for b (base s)) b)); [exact FAIL|].
   destruct (strip b) eqn:SB; try exact FAIL;
     try (cbn [base upd_base wb rx set_rx]; split; [simpl bsz; lia|apply settle_not_reconnect]).
@@ -319,25 +360,30 @@ Qed.
 
 (* ---- steps keep the client keyed; an idle caller is not touched by anybody else's steps ------ *)
 
-Lemma keyed_step : forall s l s', step2 s l = Some s' -> keyed s = true -> keyed s' = true.
+Lemma keyed_step_i : forall s l s', step2i s l = Some s' -> keyed s = true -> keyed s' = true.
 Proof.
   intros s l s' H K. apply step2_inv in H. destruct H; auto.
   - unfold warn2. cbn [upd_base wb wch bump_failed]. destruct (wch s) as [|cap n]; [|destruct (Nat.ltb n cap)]; auto.
   - unfold dispatch2. destruct f as [[sid seq] b].
-    assert (W : forall x, keyed (warn2 x) = keyed x).
-    { intros x. unfold warn2. destruct (wch x) as [|cap n]; [|destruct (Nat.ltb n cap)]; auto. }
     assert (HH : forall x, keyed (handle2 x) = keyed x).
-    { intros x. unfold handle2. destruct (handler x); auto. }
+    { intros x. unfold handle2. destruct (handler x); auto.
+      unfold warn2. destruct (wch x) as [|cap n]; [|destruct (Nat.ltb n cap)]; auto. }
     unfold fail2.
-    destruct (negb (decodes (hinted_for b (base s)) b)); [rewrite W; auto|].
+    destruct (negb (decodes (hinted_for b (base s)) b)); [exact K|].
     destruct (strip b);
       repeat match goal with |- context [lookup ?a ?b] => destruct (lookup a b) end;
-      rewrite ?W; cbn [upd_base wb keyed adopt2]; rewrite ?HH; auto.
+      cbn [upd_base wb keyed adopt2 set_perr bump_failed]; rewrite ?HH; auto.
+Qed.
+
+Lemma keyed_step : forall s l s', step2 s l = Some s' -> keyed s = true -> keyed s' = true.
+Proof.
+  intros s l s' H K. apply step2_flush in H. destruct H as (s1 & H & E). subst. rewrite keyed_flush.
+  eapply keyed_step_i; eauto.
 Qed.
 
 Definition step_label (l : label2) : Prop := exists a clk, l = L1 (LStep a clk).
 
-Lemma idle_kept : forall s l s' t, Inv11 s -> step_label l -> step2 s l = Some s' ->
+Lemma idle_kept_i : forall s l s' t, Inv11 s -> step_label l -> step2i s l = Some s' ->
   (c_pc (getc t (base s)) = CIdle -> getc t (base s') = getc t (base s)) /\
   (forall x, In x (rets (base s)) -> In x (rets (base s'))).
 Proof.
@@ -355,6 +401,14 @@ Proof.
     + auto.
     + norm. split; auto. intros ID. eqt; auto. unfold getc in ID. congruence.
   - auto.
+Qed.
+
+Lemma idle_kept : forall s l s' t, Inv11 s -> step_label l -> step2 s l = Some s' ->
+  (c_pc (getc t (base s)) = CIdle -> getc t (base s') = getc t (base s)) /\
+  (forall x, In x (rets (base s)) -> In x (rets (base s'))).
+Proof.
+  intros s l s' t I L H. apply step2_flush in H. destruct H as (s1 & H & E). subst. rewrite base_flush.
+  eapply idle_kept_i; eauto.
 Qed.
 
 (* ---- drain ------------------------------------------------------------------------------------- *)
@@ -388,24 +442,24 @@ Lemma drain_step : forall s, Inv16 s -> keyed s = true ->
   quiescent (base s) \/
   exists l s', step_label l /\ step2 s l = Some s' /\ (pot (base s') < pot (base s))%nat.
 Proof.
-  intros s [[IA IC IN IR] IL IK] K.
+  intros s [[IA IC IN IR] IL IK _] K.
   destruct (Nat.eq_dec (hpot (base s)) 0) as [HZ|HN].
   2:{ (* somebody is inside the critical section: let him finish *)
       right. destruct (hsum_pos (callers (base s))) as (t & T); [unfold hpot in HN; lia|].
       fold (getc t (base s)) in T.
       destruct (c_pc (getc t (base s))) eqn:P; simpl in T; try lia.
       - exists (L1 (LStep (ACaller t) 0)). eexists. split; [do 2 eexists; reflexivity|]. split.
-        + simpl. rewrite K. simpl. unfold lift, step, step_caller. rewrite P. reflexivity.
-        + cbn [base wb]. apply pot_set_pc; auto. rewrite P. simpl. lia.
+        + apply step2_of_i. simpl. rewrite K. simpl. unfold lift, step, step_caller. rewrite P. reflexivity.
+        + rewrite base_flush. cbn [base wb]. apply pot_set_pc; auto. rewrite P. simpl. lia.
       - exists (L1 (LStep (ACaller t) 0)). eexists. split; [do 2 eexists; reflexivity|]. split.
-        + simpl. rewrite K. simpl. unfold lift, step, step_caller. rewrite P. reflexivity.
-        + cbn [base wb]. apply pot_set_pc; auto. rewrite P. simpl. lia. }
+        + apply step2_of_i. simpl. rewrite K. simpl. unfold lift, step, step_caller. rewrite P. reflexivity.
+        + rewrite base_flush. cbn [base wb]. apply pot_set_pc; auto. rewrite P. simpl. lia. }
   assert (NOCS : forall t, ~ in_cs (c_pc (getc t (base s)))).
   { intros t (i & [X|X]); pose proof (hsum_zero _ t HZ) as Z; fold (getc t (base s)) in Z; rewrite X in Z; discriminate. }
   assert (STEP : forall X, step_rx2 0 s = Some X -> (pot (base X) < pot (base s))%nat ->
      exists l s', step_label l /\ step2 s l = Some s' /\ (pot (base s') < pot (base s))%nat).
-  { intros X E Lt. exists (L1 (LStep ARx 0)), X. split; [do 2 eexists; reflexivity|]. split; auto.
-    simpl. rewrite K. simpl. exact E. }
+  { intros X E Lt. exists (L1 (LStep ARx 0)), (flush X). split; [do 2 eexists; reflexivity|].
+    split; [|rewrite base_flush; exact Lt]. apply step2_of_i. simpl. rewrite K. simpl. exact E. }
   destruct (rx (base s)) eqn:R.
   - (* read *)
     destruct (wire_in (base s)) as [|f r] eqn:W.
@@ -543,16 +597,17 @@ Lemma probe : forall s t clk sid p, Inv16 s -> keyed s = true -> quiescent (base
 Proof.
   intros s t clk sid p I K Q ID SM i k. pose proof (quiescent_lock _ I Q) as LK.
   destruct Q as (R & W & C & _).
+  assert (PF : perr s = false) by (apply (i16_p _ I); exact R).
   (* call *)
   set (b1 := set_caller t {| c_pc := CLock; c_hint := false; c_k := k |} (base s)).
   assert (S1 : step2 s (L1 (LCall t false)) = Some (wb b1 s)).
-  { unfold step2. rewrite K. cbn [negb]. unfold lift, step. rewrite ID. reflexivity. }
+  { apply step2_clean; [|exact PF]. unfold step2i. rewrite K. cbn [negb]. unfold lift, step. rewrite ID. reflexivity. }
   assert (G1 : getc t b1 = {| c_pc := CLock; c_hint := false; c_k := k |}).
   { unfold b1. rewrite getc_set_caller, Nat.eqb_refl. reflexivity. }
   (* acquire *)
   set (b2 := set_pc t (CReg i) (set_last i (set_lock (Some (ACaller t)) b1))).
   assert (S2 : step2 (wb b1 s) (L1 (LStep (ACaller t) clk)) = Some (wb b2 s)).
-  { unfold step2. cbn [keyed wb]. rewrite K. cbn [negb]. unfold lift. cbn [base wb]. unfold step, step_caller.
+  { apply step2_clean; [|exact PF]. unfold step2i. cbn [keyed wb]. rewrite K. cbn [negb]. unfold lift. cbn [base wb]. unfold step, step_caller.
     rewrite G1. cbn [c_pc]. change (lock b1) with (lock (base s)). rewrite LK. reflexivity. }
   assert (G2 : getc t b2 = {| c_pc := CReg i; c_hint := false; c_k := k |}).
   { unfold b2. rewrite getc_set_pc, Nat.eqb_refl.
@@ -560,7 +615,7 @@ Proof.
   (* write *)
   set (b3 := set_pc t (CWritten i) (send (mk_req i t k false b2) (add_tables i t {| c_pc := CReg i; c_hint := false; c_k := k |} b2))).
   assert (S3 : step2 (wb b2 s) (L1 (LStep (ACaller t) 0)) = Some (wb b3 s)).
-  { unfold step2. cbn [keyed wb]. rewrite K. cbn [negb]. unfold lift. cbn [base wb]. unfold step, step_caller.
+  { apply step2_clean; [|exact PF]. unfold step2i. cbn [keyed wb]. rewrite K. cbn [negb]. unfold lift. cbn [base wb]. unfold step, step_caller.
     rewrite G2. reflexivity. }
   assert (G3 : getc t b3 = {| c_pc := CWritten i; c_hint := false; c_k := k |}).
   { unfold b3. rewrite getc_set_pc, Nat.eqb_refl.
@@ -570,7 +625,7 @@ Proof.
   (* release *)
   set (b4 := set_pc t (CRecv i) (set_lock None b3)).
   assert (S4 : step2 (wb b3 s) (L1 (LStep (ACaller t) 0)) = Some (wb b4 s)).
-  { unfold step2. cbn [keyed wb]. rewrite K. cbn [negb]. unfold lift. cbn [base wb]. unfold step, step_caller.
+  { apply step2_clean; [|exact PF]. unfold step2i. cbn [keyed wb]. rewrite K. cbn [negb]. unfold lift. cbn [base wb]. unfold step, step_caller.
     rewrite G3. reflexivity. }
   assert (G4 : getc t b4 = {| c_pc := CRecv i; c_hint := false; c_k := k |}).
   { unfold b4. rewrite getc_set_pc, Nat.eqb_refl. change (getc t (set_lock None b3)) with (getc t b3). rewrite G3. reflexivity. }
@@ -578,28 +633,28 @@ Proof.
   set (f := (sid, 0, BResult i false KObj p)).
   set (b5 := push_srv f b4).
   assert (S5 : step2 (wb b4 s) (L1 (LSrv f)) = Some (wb b5 s)).
-  { unfold step2. cbn [keyed wb]. rewrite K. cbn [negb base wb]. change (closed b4) with (closed (base s)). rewrite C. reflexivity. }
+  { apply step2_clean; [|exact PF]. unfold step2i. cbn [keyed wb]. rewrite K. cbn [negb base wb]. change (closed b4) with (closed (base s)). rewrite C. reflexivity. }
   assert (W5 : wire_in b5 = [f]) by (change (wire_in b5) with (wire_in (base s) ++ [f]); rewrite W; reflexivity).
   assert (R5 : rx b5 = RRead) by (change (rx b5) with (rx (base s)); exact R).
   (* read *)
   set (b6 := set_rx (RDispatch f []) (set_in [] b5)).
   assert (TO : transport_ok f = true) by (unfold f, transport_ok; rewrite SM; reflexivity).
   assert (S6 : step2 (wb b5 s) (L1 (LStep ARx 0)) = Some (wb b6 s)).
-  { unfold step2. cbn [keyed wb]. rewrite K. cbn [negb]. unfold step_rx2. cbn [base wb]. rewrite R5, W5, TO.
+  { apply step2_clean; [|exact PF]. unfold step2i. cbn [keyed wb]. rewrite K. cbn [negb]. unfold step_rx2. cbn [base wb]. rewrite R5, W5, TO.
     unfold lift. cbn [base wb]. unfold step, step_rx. rewrite R5, W5. reflexivity. }
   (* dispatch *)
   set (s7 := dispatch2 f [] (wb b6 s)).
-  assert (S7 : step2 (wb b6 s) (L1 (LStep ARx 0)) = Some s7).
-  { unfold step2. cbn [keyed wb]. rewrite K. cbn [negb]. unfold step_rx2. cbn [base wb]. reflexivity. }
   assert (D7 : s7 = wb (set_rx (RDeliver i (t, k) (VRes KObj p) [KTail sid 0]) (log (EDisp i (VRes KObj p)) (log (ERecv sid 0) b6))) s).
   { unfold s7, dispatch2, f. cbn [base wb upd_base decodes strip is_vec negb].
     change (table b6) with (table b3). rewrite T3. cbn [lookup]. rewrite Z.eqb_refl. reflexivity. }
+  assert (S7 : step2 (wb b6 s) (L1 (LStep ARx 0)) = Some s7).
+  { apply step2_clean; [|rewrite D7; exact PF]. unfold step2i. cbn [keyed wb]. rewrite K. cbn [negb]. unfold step_rx2. cbn [base wb]. reflexivity. }
   (* deliver *)
   set (b7 := set_rx (RDeliver i (t, k) (VRes KObj p) [KTail sid 0]) (log (EDisp i (VRes KObj p)) (log (ERecv sid 0) b6))) in *.
   set (b8 := add_ret (t, k, i, RetVal KObj p)
        (set_pc t CIdle (set_rx (settle [KTail sid 0]) (set_tables (del_key i (table b7)) (delz i (hints b7)) b7)))).
   assert (S8 : step2 s7 (L1 (LStep ARx 0)) = Some (wb b8 s)).
-  { rewrite D7. unfold step2. cbn [keyed wb]. rewrite K. cbn [negb]. unfold step_rx2. cbn [base wb].
+  { rewrite D7. apply step2_clean; [|exact PF]. unfold step2i. cbn [keyed wb]. rewrite K. cbn [negb]. unfold step_rx2. cbn [base wb].
     change (rx b7) with (RDeliver i (t, k) (VRes KObj p) [KTail sid 0]). unfold lift. cbn [base wb]. unfold step, step_rx.
     change (rx b7) with (RDeliver i (t, k) (VRes KObj p) [KTail sid 0]). unfold deliver.
     change (getc t b7) with (getc t b4). rewrite G4. cbn [c_pc c_k]. rewrite Nat.eqb_refl. reflexivity. }
@@ -663,20 +718,27 @@ Lemma meta_dispatch2 : forall f ks s,
   keyex (dispatch2 f ks s) = keyex s /\ gen (dispatch2 f ks s) = gen s.
 Proof.
   intros [[sid seq] b] ks s. unfold dispatch2, fail2.
-  destruct (negb (decodes (hinted_for b (base s)) b));
-    [rewrite keyed_warn2, plain_warn2, keyex_warn2, gen_warn2; auto|].
+  destruct (negb (decodes (hinted_for b (base s)) b)); [cbn; auto|].
   destruct (strip b);
     repeat match goal with |- context [lookup ?a ?b] => destruct (lookup a b) end;
-    rewrite ?keyed_warn2, ?plain_warn2, ?keyex_warn2, ?gen_warn2;
-    cbn [upd_base wb keyed plain_out keyex gen adopt2];
+    cbn [upd_base wb keyed plain_out keyex gen adopt2 set_perr bump_failed];
     rewrite ?keyed_handle2, ?plain_handle2, ?keyex_handle2, ?gen_handle2; auto.
+Qed.
+
+Lemma meta_flush : forall x, keyed (flush x) = keyed x /\ plain_out (flush x) = plain_out x /\
+                        keyex (flush x) = keyex x /\ gen (flush x) = gen x.
+Proof.
+  intros x. unfold flush. destruct (perr x); auto. destruct (rx (base x)); auto.
+  destruct (meta_warn2 (set_perr false x)) as (A & B & C & D). rewrite A, B, C, D. auto.
 Qed.
 
 Lemma meta_step : forall s l s', step2 s l = Some s' -> keyed s = true ->
   keyed s' = true /\ plain_out s' = plain_out s /\ keyex s' = keyex s /\
   (gen s' = gen s \/ (gen s' = S (gen s) /\ rx (base s) = RReconnect)).
 Proof.
-  intros s l s' H K. apply step2_inv in H. destruct H; auto.
+  intros s l s' H K. apply step2_flush in H. destruct H as (s1 & H & E). subst.
+  destruct (meta_flush s1) as (F1 & F2 & F3 & F4). rewrite F1, F2, F3, F4. clear F1 F2 F3 F4.
+  rename s1 into s'. apply step2_inv in H. destruct H; auto.
   - congruence.
   - unfold warn2. cbn [upd_base wb wch bump_failed]. destruct (wch s) as [|cap n]; [|destruct (Nat.ltb n cap)]; auto.
   - destruct (meta_dispatch2 f ks s) as (A & B & C & D). rewrite A, B, C, D. auto.
@@ -722,7 +784,9 @@ Proof.
   - intros s l s' (A & B & C & D & E & F) H. destruct (keyed s) eqn:K.
     + destruct (meta_step _ _ _ H K) as (A' & B' & C' & _). rewrite A', B', C'.
       split; [auto|]. split; [auto|]. split; [exact C|]. split; [auto|]. split; intros; discriminate.
-    + apply step2_inv in H. destruct H; try congruence.
+    + apply step2_flush in H. destruct H as (s1 & H & EQ). subst s'.
+      destruct (meta_flush s1) as (F1 & F2 & F3 & _). rewrite F1, F2, F3, base_flush. clear F1 F2 F3.
+      apply step2_inv in H. destruct H; try congruence.
       * simpl. rewrite K. auto 7.
       * simpl. rewrite (F eq_refl). rewrite A, (F eq_refl). repeat split; auto; try discriminate; try lia.
 Qed.
@@ -735,9 +799,9 @@ Proof.
   exists s0. split; auto. rewrite run2_cons in H1.
   destruct (step2 s0 (L1 LClose)) as [s1|] eqn:E; [|discriminate].
   assert (K : keyed s0 = true).
-  { simpl in E. destruct (keyed s0); auto. discriminate. }
+  { unfold step2 in E. simpl in E. destruct (keyed s0); auto. discriminate. }
   assert (C : closed (base s0) = false).
-  { simpl in E. rewrite K in E. simpl in E. destruct (closed (base s0)); auto. discriminate. }
+  { unfold step2 in E. simpl in E. rewrite K in E. simpl in E. destruct (closed (base s0)); auto. discriminate. }
   destruct (meta_step _ _ _ E K) as (K1 & P1 & X1 & G1).
   destruct (meta_run _ _ _ H1 K1) as (K2 & P2 & X2 & G2).
   split; auto. split; auto. split; auto. split; [congruence|]. split; [congruence|].
@@ -750,18 +814,18 @@ Lemma reconnect_step : forall s clk, keyed s = true -> rx (base s) = RReconnect 
     keyed s' = true /\ plain_out s' = plain_out s /\ keyex s' = keyex s /\
     salt (base s') = salt (base s) /\ table (base s') = table (base s) /\ callers (base s') = callers (base s).
 Proof.
-  intros s clk K R. eexists. split.
-  - simpl. rewrite K. simpl. unfold step_rx2. rewrite R. reflexivity.
-  - simpl. auto 12.
+  intros s clk K R. exists (flush (reconnect2 s)). split.
+  - apply step2_of_i. simpl. rewrite K. simpl. unfold step_rx2. rewrite R. reflexivity.
+  - destruct (meta_flush (reconnect2 s)) as (F1 & F2 & F3 & F4). rewrite F1, F2, F3, F4, base_flush. simpl. auto 12.
 Qed.
 
 (* ---- step2 extends step ------------------------------------------------------------------------ *)
 
 (* every transition of Client/Model.v that Live.v does not replace is taken over unchanged ... *)
 Lemma conservative : forall s l b', keyed s = true -> lifted_ok s l -> step (base s) l = Some b' ->
-  step2 s (L1 l) = Some (wb b' s).
+  step2 s (L1 l) = Some (flush (wb b' s)).
 Proof.
-  intros s l b' K OK H.
+  intros s l b' K OK H. apply step2_of_i.
   assert (L : lift s l = Some (wb b' s)) by (unfold lift; rewrite H; reflexivity).
   simpl. rewrite K. simpl.
   destruct l as [t h|[t|] clk|f|]; simpl in OK; auto.
